@@ -3,7 +3,7 @@
    history (several repetitions of the whole history) and on fresh caches
    (several repetitions; a fresh process for corpus cases). The validator
    [history_independent_b] and the known-finding classification run here. *)
-From Apko Require Export Base.Prelude Model.Caches Spec.CachesSpec Model.CachesBridge.
+From Apko Require Export Base.Prelude Model.Caches Spec.CachesSpec Model.CachesBridge Model.CachesIndex.
 From Apko Require Model.Resolver Corr.C02.
 Open Scope string_scope. Open Scope list_scope.
 
@@ -17,7 +17,11 @@ Record hcase := {
   h_dq_after : list (list pid);             (* sequential only: cached dq entry after the call *)
   h_ambig : list bool;                      (* the dq key of this call depends on map iteration order *)
   h_proto : list (nat * bool);              (* per index list: len(prototype.selected), maps unchanged since built *)
-  h_memo_bad : list string                  (* memo keys whose stored value differs from parsing *)
+  h_memo_bad : list string;                 (* memo keys whose stored value differs from parsing *)
+  h_rkeys : list (list idxid * option (list idxid))
+                                            (* sequential only: index lists probed in the resolver trie after the history
+                                               (every list some call used, its permutations and proper prefixes):
+                                               None = nothing stored, Some l = the stored prototype was built from l *)
 }.
 
 (* ---- helpers ---------------------------------------------------------------- *)
@@ -182,8 +186,27 @@ Fixpoint dedup_tags (l : list string) : list string :=
   | t :: r => if existsb (String.eqb t) r then dedup_tags r else t :: dedup_tags r
   end.
 
+(* ---- the resolver trie as an object ----------------------------------------------
+   the model's rcache after the history must hold a prototype under exactly the
+   probed lists the real trie holds one under, built from that very list (the
+   ORDER of the list is part of the key: name-version ties go to the index listed first) *)
+Definition model_final (u : universe) (calls : list call) : state :=
+  fold_left (model_step u) calls empty_state.
+Definition model_rkey (x : state) (k : list idxid) : option (list idxid) :=
+  match find_key k (rcache x) with
+  | Some h => match sget (st x) (h_idx h) with Some (OIdx l) => Some l | _ => Some [] end
+  | None => None
+  end.
+Definition rkeys_tags (u : universe) (calls : list call) (probes : list (list idxid * option (list idxid))) : list string :=
+  let x := model_final u calls in
+  flat_map (fun p =>
+    tag_if (match snd p with Some l => negb (list_eqb Nat.eqb l (fst p)) | None => false end)
+           "viol:resolver-cache-entry-built-from-another-list" ++
+    tag_if (negb (option_eqb (list_eqb Nat.eqb) (model_rkey x (fst p)) (snd p))) "mismatch:resolver-cache-model/key") probes.
+
 Definition check_history (c : hcase) : list string :=
   dedup_tags (
+    (if h_conc c then [] else rkeys_tags (h_univ c) (h_calls c) (h_rkeys c)) ++
     (if h_conc c then conc_tags (h_univ c) (h_calls c) (h_calls c) (h_obs c) (h_oracle c)
      else seq_tags (h_univ c) (h_calls c) (existsb (fun b => b) (h_ambig c)) empty_state true (h_calls c) (h_obs c) (h_oracle c)
                    (h_dq_before c) (h_dq_after c) (h_ambig c)) ++
@@ -220,3 +243,87 @@ Fixpoint istep_tags (earlier steps : list (list (string * nat) * list string)) (
 
 Definition check_indexcache (c : icase) : list string :=
   dedup_tags (istep_tags [] (i_steps c) (i_names c) (i_obs c) (i_oracle c)).
+
+(* ---- the index cache over histories WITH REWRITES (stage indexhist) ---------------
+   Events: a repository's index file is (re)written - the harness sets its
+   modification time explicitly -, or GetRepositoryIndexes + a resolution run
+   over some repository lines.  Per request the harness reports, for every index
+   returned, its Name(), the directory it was read from and its packages, and the
+   install list; the oracle is the same request on copies of the directories'
+   present contents that the process has never read.
+
+   Convention for [rr_ctx] (one per request: the keys / signature options of the
+   call): "unverified" = signatures ignored; "k1" / "k12" = verified with a keyring
+   that holds the signing key; "k2" = verified with a keyring that does not (every
+   parse is an error, which the cache stores like a result). *)
+Definition content := list (string * string).
+Record rref := { rr_pin : string; rr_dir : nat; rr_ctx : string; rr_http : bool }.
+Definition ixobs := (nat * string * content)%type.               (* directory, Name(), packages *)
+Definition jres := option (list (string * string * nat)).        (* (name, version, directory) install list *)
+Inductive jev :=
+| JWrite (d : nat) (mt : Z) (c : content)
+| JGet (repos : list rref) (world : list string) (obs : option (list ixobs)) (res oracle : jres).
+Record jcase := { j_events : list jev }.
+
+Definition jkey (r : rref) : ekey := {| ek_path := rr_dir r; ek_ctx := rr_ctx r; ek_name := rr_pin r |}.
+Definition j_parse (k : ekey) (c : content) : option ixobs :=
+  if String.eqb (ek_ctx k) "k2" then None else Some (ek_path k, ek_name k, c).
+
+(* a remote index is keyed by its ETag (the harness' server derives it from the
+   bytes): always the present contents; a missing one is a 404, an error *)
+Definition j_remote (fs : files content) (r : rref) : gres ixobs :=
+  match current j_parse fs (jkey r) with GMissing => GGot None | g => g end.
+
+(* the local lines go through the cache model in repository order (any schedule
+   gives the same slots and an equivalent cache: c08_index_list_schedule_independent) *)
+Fixpoint j_slots (fs : files content) (x : icache ixobs) (repos : list rref) : icache ixobs * list (option (gres ixobs)) :=
+  match repos with
+  | [] => (x, [])
+  | r :: t =>
+      if rr_http r then let (x', sl) := j_slots fs x t in (x', Some (j_remote fs r) :: sl)
+      else let (x1, g) := ic_get j_parse fs x (jkey r) in
+           let (x', sl) := j_slots fs x1 t in (x', Some g :: sl)
+  end.
+Definition j_fresh (fs : files content) (repos : list rref) : option (list ixobs) :=
+  assemble (List.map (fun r => Some (if rr_http r then j_remote fs r else current j_parse fs (jkey r))) repos).
+
+Definition content_eqb : content -> content -> bool := list_eqb nv_eqb.
+Definition ixobs_eqb (a b : ixobs) : bool :=
+  Nat.eqb (fst (fst a)) (fst (fst b)) && String.eqb (snd (fst a)) (snd (fst b)) && content_eqb (snd a) (snd b).
+Definition nvd_eqb (a b : string * string * nat) : bool :=
+  String.eqb (fst (fst a)) (fst (fst b)) && String.eqb (snd (fst a)) (snd (fst b)) && Nat.eqb (snd a) (snd b).
+Definition jres_eqb : jres -> jres -> bool := option_eqb (list_eqb nvd_eqb).
+
+Definition stale_tag (known : bool) : string :=
+  if known then "viol:index-cache-stale-after-rewrite-with-unchanged-mtime" else "viol:index-cache-stale".
+
+Fixpoint jrun (fs : files content) (x : icache ixobs) (bad : list nat) (evs : list jev) : list string :=
+  match evs with
+  | [] => []
+  | JWrite d mt c :: t =>
+      (* a rewrite that does not move the time forward: outside ic_fresh's hypothesis (finding C08-F5) *)
+      let bad' := match fget fs d with Some (m0, _) => if Z.ltb m0 mt then bad else d :: bad | None => bad end in
+      jrun (fwrite fs d mt c) x bad' t
+  | JGet repos world obs res oracle :: t =>
+      let (x', sl) := j_slots fs x repos in
+      let model := assemble sl in
+      let fresh := j_fresh fs repos in
+      let known := existsb (fun r => existsb (Nat.eqb (rr_dir r)) bad) repos in
+      tag_if (negb (option_eqb (list_eqb ixobs_eqb) obs model)) "mismatch:index-cache-model" ++
+      (if option_eqb (list_eqb ixobs_eqb) obs fresh then
+         tag_if (negb (jres_eqb res oracle)) "viol:history-dependent-result"
+       else
+         match obs, fresh with
+         | Some o, Some f =>
+             if negb (list_eqb Nat.eqb (List.map (fun i => fst (fst i)) o) (List.map (fun i => fst (fst i)) f))
+             then ["viol:index-order-differs-from-repository-order"]
+             else if negb (list_eqb String.eqb (List.map (fun i => snd (fst i)) o) (List.map (fun i => snd (fst i)) f))
+             then ["viol:index-name-differs-from-repository-line"]
+             else [stale_tag known]
+         | _, _ => ["viol:index-request-outcome-differs-from-fresh-process"]
+         end ++
+         tag_if (negb (jres_eqb res oracle) && negb known) "viol:history-dependent-result") ++
+      jrun fs x' bad t
+  end.
+
+Definition check_indexhist (c : jcase) : list string := dedup_tags (jrun [] ic_empty [] (j_events c)).
